@@ -1161,7 +1161,7 @@ class ConfigInformation:
         # Sets the init tasks (they are part of the full identifier: one that was
         # cached before, when the task was already sealed, is no longer valid)
         previous_init_tasks = self.init_tasks
-        self.init_tasks = init_tasks
+        self.init_tasks = list(init_tasks)
         self._full_identifier = None
 
         # Creates a new job
